@@ -355,13 +355,21 @@ def run(ctx):
     ctx.add_violations(r["violations"])
     for s in r["sample_histories"]:
         ctx.sample({"history": s})
+    sched = None
+    try:
+        from . import c20_sched
+    except ImportError:
+        c20_sched = None
+    if c20_sched is not None:
+        sched = c20_sched.run_part(ctx)
     ctx.coverage.update(
-        states=r["states"],
-        transitions=r["transitions"],
-        traces_validated_against_impl=r["transitions"],
+        states=r["states"] + (sched["states"] if sched else 0),
+        transitions=r["transitions"] + (sched["transitions"] if sched else 0),
+        traces_validated_against_impl=r["transitions"] + (sched["executions"] if sched else 0),
+        schedule_part=sched["summary"] if sched else "not run",
         depth_completed=r["depth_completed"],
         depth_requested=depth,
-        exhaustive=r["exhaustive"],
+        exhaustive=r["exhaustive"] and (sched["exhaustive"] if sched else True),
         caps_hit=r["capped"],
         level_sizes=r["level_sizes"],
         alphabet=len(seqx._H.events),
